@@ -655,7 +655,13 @@ func (s *SessionState) onIPCPUp() {
 		"session_id", s.SessionID,
 		"ipv4", s.ipcp.PeerConfig().Address)
 
-	s.IPv4Address = s.ipcp.PeerConfig().Address
+	// A Configure-Request without an IP-Address option is acknowledged too;
+	// the peer address is then nil and the address assigned in startNCP
+	// must stay in place (it is what the dataplane is programmed with and
+	// what is released to the pool on teardown).
+	if addr := s.ipcp.PeerConfig().Address; addr != nil {
+		s.IPv4Address = addr
+	}
 	s.ipcpOpen = true
 	s.checkOpen()
 }
